@@ -1,8 +1,10 @@
 import OpusModel.Dtx
+import OpusModel.SilkVad
 import Driver.Util
 /- Suite `dtx`: the DTX skeleton of the encoder replayed from recorded oracles (C20).
    `call <cfg8> <state9> <oracles…>`   one opus_encode call from an explicit pre-state
-   `run  <cfg8> <ncalls> <oracles…>…`  a whole run from the state of a fresh encoder            -/
+   `run  <cfg8> <ncalls> <oracles…>…`  a whole run from the state of a fresh encoder
+   `vad  <fs_kHz> <frame_length> <state28|init> <samples>`  one silk_VAD_GetSA_Q8_c call (OpusModel.SilkVad) -/
 namespace Driver.SuiteDtx
 open Opus Opus.Dtx Driver
 
@@ -129,7 +131,34 @@ def runContract (c : Cfg) : St → List CallOr → Bool
     let r := encodeCall c st o
     contractBroken c o r.2.1 || runContract c r.1 os
 
+/-! ### SILK VAD (OpusModel.SilkVad) -/
+open Opus.SilkVad in
+def vadStateOfList : List Int → Option VadState
+  | [a0, a1, b0, b1, c0, c1, x0, x1, x2, x3, r0, r1, r2, r3, hp, n0, n1, n2, n3, i0, i1, i2, i3, z0, z1, z2, z3, cnt] =>
+    some { ana0 := (a0, a1), ana1 := (b0, b1), ana2 := (c0, c1), xnrgSubfr := ⟨x0, x1, x2, x3⟩, ratioSmth := ⟨r0, r1, r2, r3⟩,
+           hp := hp, nl := ⟨n0, n1, n2, n3⟩, invNl := ⟨i0, i1, i2, i3⟩, bias := ⟨z0, z1, z2, z3⟩, counter := cnt }
+  | _ => none
+
+open Opus.SilkVad in
+def vadStateStr (s : VadState) : String :=
+  ",".intercalate (([s.ana0.1, s.ana0.2, s.ana1.1, s.ana1.2, s.ana2.1, s.ana2.2] ++ s.xnrgSubfr.toList ++ s.ratioSmth.toList ++ [s.hp]
+    ++ s.nl.toList ++ s.invNl.toList ++ s.bias.toList ++ [s.counter]).map toString)
+
+open Opus.SilkVad in
+def handleVad : List String → String
+  | [fs, len, st, samples] =>
+    match parseNat fs, parseNat len, (if st = "init" then some vadInit else (parseIntList st).bind vadStateOfList), parseIntList samples with
+    | some fs, some len, some st, some xs =>
+      match getSA st fs len xs with
+      | .ok o => s!"sa={o.speechActivityQ8} tilt={o.inputTiltQ15} q={",".intercalate (o.quality.toList.map toString)} st={vadStateStr o.st}"
+      | .err e => errStr e
+      | .oob => "OOB"
+      | .abort => "ABORT"
+    | _, _, _, _ => "bad-op"
+  | _ => "bad-op"
+
 def handle : List String → String
+  | "vad" :: ts => handleVad ts
   | "call" :: ts =>
     match (do
       let (c, ts) ← pCfg ts
